@@ -83,6 +83,10 @@ def gen(rng, tier):
             c = {"op": k, "clzs": m}
             if k == "evaluate":
                 c["identifiers"] = m if rng.random() < 0.7 else rand_model(rng)
+            if k == "count" and rng.random() < (0.5 if tier == "quick" else 0.25):
+                # the listing as printed by the real `coca count`, three fresh processes (its order must be reproducible)
+                c["cliRuns"] = 3
+                c["top"] = 0
             sh.append(c)
         shards.append(sh)
     return shards
@@ -151,8 +155,17 @@ def oracle(case, out, raw):
         got = [(p["Key"], p["Value"]) for p in out["pairs"]]
         if dict(got) != exp or len(got) != len(exp):
             ds.append(("refcount-wrong", "got %s expected %s" % (got[:5], sorted(exp.items())[:5])))
-        if [k for k, _ in got] != sorted(k.encode() for k, _ in got) and [k.encode() for k, _ in got] != sorted(k.encode() for k, _ in got):
-            ds.append(("refcount-order", "listing is not in key order"))
+        if "cli" in out:
+            # what `coca count` prints: the same rows in every run (reproducible order), and exactly the expected counts
+            if out.get("cliError"):
+                ds.append(("count-cli-error", out["cliError"][:300]))
+            runs = out["cli"]
+            if any(r != runs[0] for r in runs[1:]):
+                ds.append(("refcount-order-irreproducible", "`coca count` listed the same model in different orders: %s vs %s" % (
+                    runs[0][:6], [r for r in runs[1:] if r != runs[0]][0][:6])))
+            for r in runs[:1]:
+                if sorted((k, int(v)) for v, k in r) != sorted(exp.items()):
+                    ds.append(("refcount-cli-wrong", "`coca count` printed %s, expected counts %s" % (r[:5], sorted(exp.items())[:5])))
     elif case["op"] == "evaluate":
         ids = case["identifiers"]
         methods = [(c, f) for c in ids for f in c.get("Functions") or []]
@@ -186,7 +199,7 @@ def nontrivial(case, mo):
 
 RULE = ("random code models (1-4 classes incl. *Util*/*Service* names, 0-5 methods from a pool of camel-case shapes with acronyms/digits/underscores, "
         "modifier subsets, Nullable/CheckForNull/IsReturnNull, calls to declared/undeclared/creation/empty-NodeName callees) x {count, evaluate, concept}; "
-        "plus ALL 5040 permutations of the 7 modifiers (and the same without static) through evaluate once per run; non-trivial = non-empty report")
+        "half of the count cases (a quarter in the thorough tier) also run the REAL `coca count -d deps.json` three times in fresh processes; plus ALL 5040 permutations of the 7 modifiers (and the same without static) through evaluate once per run; non-trivial = non-empty report")
 ASSUMPTIONS = ["method names are ASCII (strcase indexes bytes); the oracle's word splitter is an independent reading of strcase.ToDelimited",
                "floating-point fields of the summary (standard deviations) are not compared",
                "IsReturnNull / Modifiers as delivered by the identifier pass are inputs here; their extraction from source is covered by the Java front-end checks"]
@@ -198,6 +211,8 @@ def view(o):
     """the Lean model covers the summary counts and the nullable list; the rest of evaluate.json is compared between runs by C08 only"""
     if isinstance(o, dict) and "full" in o:
         return {k: v for k, v in o.items() if k != "full"}
+    if isinstance(o, dict) and "cli" in o:
+        return {k: v for k, v in o.items() if k not in ("cli", "cliError")}      # the printed table is judged by the oracle
     return o
 
 
